@@ -6,14 +6,79 @@ import vlib
 
 META = dict(
     category="model_checking",
-    technique="TLA+ spec Oracle.tla exhaustively model-checked by TLC; every model transition replayed on the real keeper; recorded behaviours validated by TLC trace spec",
+    technique="TLA+ spec Oracle.tla exhaustively model-checked by TLC; every model transition replayed on the real keeper; recorded behaviours validated by TLC trace spec; Apalache inductive step for the ring over unbounded values",
     text="Oracle.tla transcribes UpdatePriceList branch by branch; TLC checks the C17 invariants on the bounded model (window N, gap, sample grid), "
          "every generated transition is executed once on the real UpdatePriceList/market.BeginBlocker with the pre-state injected and TLC checks "
          "code step = spec step; seeded behaviours (zeros, repeats, 2^64-1, two priced assets) are judged by TLC with an independent ghost window. "
-         "Exhaustive for the bounded grid, sampled beyond it.",
+         "Exhaustive for the bounded grid, sampled beyond it; the ring/mean relation of the active branch is additionally discharged by Apalache as an inductive step for N=1..3 (thorough 1..6) over unbounded sample values, with a broken variant rejected as sanity. The 20-block band cadence (validation result, discard flag) is a second bounded model (Band.tla) whose transitions run through the real bandoracle+market begin blockers.",
     note="Trusted: TLC/Json module, the projection of TimeWeightedAverage records, band IBC fetch stubbed via the band keeper's setters; window size fixed within a behaviour.",
     design_ref="4 C17",
 )
+
+
+IND_TEMPLATE = """------------------------------ MODULE OracleInd%(n)d ------------------------------
+(* Inductive invariant (Apalache, symbolic, UNBOUNDED sample values) for the sample ring of an ACTIVE    *)
+(* TimeWeightedAverage record with window size N = %(n)d: the ring read from the cursor is the sequence of   *)
+(* the last N samples and the published value is their integer mean.                                      *)
+(* Next = the active-branch ring write of UpdatePriceList (Oracle.tla, Sample, branch w1.active), whose   *)
+(* agreement with the real code is what Conf_Sample establishes on every recorded step.                   *)
+EXTENDS Integers
+
+VARIABLES
+  \\* @type: Int -> Int;
+  win,
+  \\* @type: Int;
+  idx,
+  \\* @type: Int;
+  val,
+  \\* @type: Int -> Int;
+  recent
+
+N == %(n)d
+\\* @type: (Int -> Int) => Int;
+SumN(s) == %(sum)s
+
+IndInv ==
+  /\\ win \\in [1..%(n)d -> Nat] /\\ recent \\in [1..%(n)d -> Nat]
+  /\\ idx \\in 0..(N - 1)
+  /\\ \\A k \\in 1..%(n)d : win[((idx + k - 1) %% N) + 1] = recent[k]
+  /\\ val = SumN(recent) \\div N
+
+IndInit == IndInv
+Init == IndInit
+
+Next == \\E r \\in Nat :
+  /\\ r > 0
+  /\\ win' = [win EXCEPT ![idx + 1] = r]
+  /\\ idx' = IF idx + 1 %(cmp)s N THEN 0 ELSE idx + 1
+  /\\ recent' = [k \\in 1..%(n)d |-> IF k = N THEN r ELSE recent[k + 1]]
+  /\\ val' = SumN(win') \\div N
+=============================================================================
+"""
+
+
+def apalache_inductive(c, ns):
+    """Inductive step IndInv /\\ Next => IndInv' for unbounded sample values (Apalache). Best effort: a tool failure is
+    reported as not run; a deliberately broken variant must be REJECTED (sanity that the obligation bites)."""
+    import subprocess
+    out = []
+    d = os.path.join(c.wd, "apalache")
+    os.makedirs(d, exist_ok=True)
+    for n, cmp_, expect_ok in [(k, ">=", True) for k in ns] + [(3, ">", False)]:
+        name = "OracleInd%d" % n
+        with open(os.path.join(d, name + ".tla"), "w") as f:
+            f.write(IND_TEMPLATE % dict(n=n, sum=" + ".join("s[%d]" % k for k in range(1, n + 1)), cmp=cmp_))
+        try:
+            p = subprocess.run(["apalache-mc", "check", "--init=IndInit", "--inv=IndInv", "--length=1", "--out-dir=" + os.path.join(d, "out"), name + ".tla"],
+                               cwd=d, stdout=subprocess.PIPE, stderr=subprocess.STDOUT, text=True, timeout=600)
+        except Exception as e:
+            out.append(dict(n=n, variant=cmp_, result="not run: %s" % e))
+            continue
+        ok = "EXITCODE: OK" in p.stdout
+        out.append(dict(n=n, variant="wrap when idx+1 %s N" % cmp_, discharged=ok, expected=expect_ok))
+        if ok != expect_ok and ("EXITCODE" in p.stdout):
+            raise vlib.NoVerdict("Apalache inductive obligation N=%d variant %s: discharged=%s expected=%s (spec-level, not a verdict about the code)" % (n, cmp_, ok, expect_ok))
+    return out
 
 
 def run(c):
@@ -48,13 +113,14 @@ def run(c):
     c.judge(tr, logf)
     nodes = vlib.read_log(logf)
     c.samples = [nodes[0], nodes[len(nodes) // 2], nodes[-1]]
+    ind = apalache_inductive(c, (1, 2, 3) if quick else (1, 2, 3, 4, 5, 6))
     st = tr["stats"]
     if min(st.get(k, 0) for k in ("meanChecked", "zeroSamples", "bigValues", "cycles", "discards")) == 0:
         raise vlib.NoVerdict("vacuous run: %s" % st)
     return c.finish("model_checking", dict(
         states=dist, transitions=gen, traces_validated_against_impl=len(nodes),
         model_configs=["Oracle N=%d,Gap=%d" % x for x in grid] + ["Band N=%d,Gap=%d" % x for x in bgrid], trace_states=tr.get("distinct"), antecedents=st,
-        exhaustive=True,
+        exhaustive=True, apalache_inductive_ring=ind,
         rule="every transition of the bounded model (N x Gap grid, samples {0,1,2,5}) is one vector on the real UpdatePriceList / market.BeginBlocker; "
              "plus seeded behaviours with 0 / repeated / 2^64-1 samples for two priced assets; each node is a TLC state of Trace_Oracle"),
         assumptions=["band IBC fetch is stubbed: the fetch result is written with the band keeper's own setter",
